@@ -76,8 +76,12 @@ def norm_cfg(cfg):
     return cfg
 
 
-def to_env(cfg):
-    env = {"UFTRACE_BUFFER": "1048576"}
+def to_env(cfg, fill=0):
+    """`fill`: the byte fresh heap memory holds.  glibc's MALLOC_PERTURB_ makes it deterministic (the
+    library reads uninitialised heap memory in two places on the unchanged tree: S6, F17c); 0 is what
+    a fresh process sees from the kernel."""
+    env = {"UFTRACE_BUFFER": "1048576", "MALLOC_PERTURB_": str(255 - fill),
+           "GLIBC_TUNABLES": "glibc.malloc.tcache_count=0"}      # tcache hits are not perturbed
     if cfg["threshold"] is not None:
         env["UFTRACE_THRESHOLD"] = str(cfg["threshold"])
     trs, args, rets = [], [], []
